@@ -563,10 +563,12 @@ package internals
 
 // dptag NAMES the tag field of a map provider (set once at construction, never written afterwards).
 //@ func NewMapDataProvider(m, tag)
-//@   trusted
+//@   trusted_posts
 //@   pure
 //@   ensures[C14] result != nil ==> dptag(result) == tag
 //@   ensures !istype(result, DpFactory)
+//@   ensures[C04,C14] checked_empty_map_is_no_provider: len(m) == 0 ==> result == nil
+//@   ensures[C06,C14] checked_non_empty_map_gets_a_provider: len(m) != 0 ==> result != nil
 
 //@ specfun anydperr(Iface) Iface
 //@ func TryNewAnyDataProvider(val)
